@@ -33,12 +33,16 @@ class ListenerFault(RuntimeError):
     """F2: a listener raises inside a notification."""
 
 
+_NO = "<no redirect>"
+
+
 class Listener:
     def __init__(self, name):
         self.name = name
         self.log = []
         self.seen = []  # what the listener observes through the manager while it is being notified
         self.raise_next = False
+        self.redirect = _NO  # a re-entrant client: on its next on_current it selects this system instead
 
     def _maybe_raise(self):
         if self.raise_next:
@@ -56,6 +60,15 @@ class Listener:
         except Exception as e:
             self.seen.append(["current", system.GetId(), ["raised", type(e).__name__]])
         self._maybe_raise()
+        if self.redirect is not _NO:
+            # re-entrant MUTATION from inside the notification (once): "not this system, that one"
+            sid, self.redirect = self.redirect, _NO
+            m = _mgr()
+            try:
+                target = None if sid is None else m.GetUnitSystemById(sid)
+            except Exception:
+                return
+            m.SetCurrent(target)
 
     def on_unit(self, category, unit):
         self.log.append(["unit", category, unit])
@@ -111,13 +124,22 @@ def lst_contains(name, which):
 
 def lst_die(name):
     """F3: the last strong reference goes away; CPython frees the object at once, gc for cycles."""
-    del LISTENERS[name]
+    l = LISTENERS.pop(name)
+    # a client that goes away takes its pending intent with it (the object itself may live on for
+    # a while, e.g. in the traceback of an exception it raised earlier)
+    l.redirect = _NO
+    del l
     gc.collect()
     return None
 
 
 def lst_arm(name):
     LISTENERS[name].raise_next = True
+    return None
+
+
+def lst_redirect(name, sid):
+    LISTENERS[name].redirect = sid
     return None
 
 
@@ -161,7 +183,7 @@ def mgr_quantity_default_unit(unit, category):
     return _mgr().GetQuantityDefaultUnit(ObtainQuantity(unit, category))
 
 
-for _f in (lst_new, lst_register, lst_unregister, lst_contains, lst_die, lst_arm, mgr_set_current, sys_call, mgr_current_id, mgr_ids, mgr_template, mgr_convert_scalar, mgr_quantity_default_unit):
+for _f in (lst_new, lst_register, lst_unregister, lst_contains, lst_die, lst_arm, lst_redirect, mgr_set_current, sys_call, mgr_current_id, mgr_ids, mgr_template, mgr_convert_scalar, mgr_quantity_default_unit):
     O._Py.FUNCS[_f.__name__] = _f
 
 
@@ -377,6 +399,12 @@ class MgrGen:
             return None
         n = rng.choice(alive)
         which = rng.choice(["current", "unit"])
+        if 0.55 <= r < 0.65 and self.cfg.get("reentrant") and not any(l.get("armed") or l.get("redirect") is not None for l in L.values() if l["alive"]):
+            cur_l = [x for x in alive if L[x]["current"]]
+            if cur_l and model.systems:
+                n = rng.choice(cur_l)
+                to = rng.choice(list(model.systems) + [None])
+                return self.op("lst.redirect", "py", "lst_redirect", [n, to], mg={"kind": "lredirect", "name": n, "to": to}, c="listener")
         if r < 0.65:
             return self.op("lst.register." + which, "py", "lst_register", [n, which], mg={"kind": "lreg", "name": n, "which": which}, c="listener")
         if r < 0.8:
@@ -418,7 +446,7 @@ class MgrGen:
             return self.op("flt.incompatible.mgr.ConvertToCurrent", "mgr", "ConvertToCurrent", [c, FOREIGN[c], 1.0], mg={"kind": "convert", "category": c, "unit": FOREIGN[c], "value": 1.0, "foreign": True}, c="user", f="F1.incompatible")
         L = model.listeners
         cands = [n for n in L if L[n]["alive"] and (L[n]["current"] or L[n]["unit"])]
-        if not cands:
+        if not cands or any(l.get("redirect") is not None for l in L.values() if l["alive"]):
             return None
         n = rng.choice(cands)
         return self.op("flt.listener_raise", "py", "lst_arm", [n], mg={"kind": "larm", "name": n}, c="listener", f="F2.listener_raise")
@@ -493,7 +521,7 @@ class MgrMonitor(Mon.Monitor):
                     real_cur = m.GetCurrent().GetId()
                     if model.systems:
                         new = real_cur if real_cur in model.systems else next(iter(model.systems))
-                        sim.check(intr_mut or real_cur in model.systems, "C17.remove_reselects", {"case": "current_not_registered_after_remove"}, step, "after removing the current system, current is %r (registered: %r)" % (real_cur, list(model.systems)))
+                        sim.check(intr_mut or real_cur in model.systems or any(l["alive"] and l.get("redirect") is not None for l in model.listeners.values()), "C17.remove_reselects", {"case": "current_not_registered_after_remove"}, step, "after removing the current system, current is %r (registered: %r)" % (real_cur, list(model.systems)))
                     else:
                         new = None
                     model.current = new
@@ -577,6 +605,8 @@ class MgrMonitor(Mon.Monitor):
             sim.fired("F3.listener_death")
         elif kind == "larm":
             model.listeners[mg["name"]]["armed"] = True
+        elif kind == "lredirect":
+            model.listeners[mg["name"]]["redirect"] = [mg["to"]]
 
         if intr_mut:
             now = real_state(m)
@@ -595,9 +625,28 @@ class MgrMonitor(Mon.Monitor):
             for n, l in model.listeners.items():
                 if l["alive"] and n in LISTENERS:
                     l["armed"] = LISTENERS[n].raise_next
+                    if l.get("redirect") is not None and LISTENERS[n].redirect is _NO:
+                        l["redirect"] = None  # consumed inside the interrupted call, whatever came of it
             return
         fault = op.get("f")
         sig0 = {"op": _short(op["k"])}
+        # ---- a re-entrant client selected another system from inside its on_current notification:
+        # afterwards that system is the current one (what the individual listeners were told in
+        # which order during the nested calls is not demanded)
+        reentered = False
+        for n, l in model.listeners.items():
+            if l["alive"] and l.get("redirect") is not None and n in LISTENERS and LISTENERS[n].redirect is _NO:
+                to = l["redirect"][0]
+                l["redirect"] = None
+                if not must_reject and (to is None or to in model.systems):
+                    model.current = to
+                    reentered = True
+                    sim.count("probe:reentrant_select")
+        if reentered:
+            for n in LISTENERS:
+                self.pre_seen[n] = len(LISTENERS[n].seen)
+                self.pre_logs[n] = len(LISTENERS[n].log)
+            expect, maybe = {}, {}
         # ---- what a listener sees through the manager while it is being notified is the new state
         for n, l in LISTENERS.items():
             for ev in l.seen[self.pre_seen.get(n, 0) :]:
@@ -739,6 +788,7 @@ class C17:
             "cats": cats,
             "ids": IDS[: rng.randint(2, 6)],
             "listeners": LISTENER_NAMES[: rng.randint(1, 4)],
+            "reentrant": rng.random() < 0.5,
             "n_steps": rng.randint(lo, hi),
             "intr_rate": rng.choice([0, 0, 0.1, 0.25]),
             "intr_mut_rate": rng.choice([0, 0, 0.05, 0.15]),
